@@ -89,6 +89,8 @@ Inflight == {j \in Jobs : enters[j] > exits[j]}
 Excused(j) == closeStarted[j] \/ mp[j] \/ sub[j] \in {"rej", "unk", "none"}
 Accepted(j) == sub[j] = "acc"
 Settled(j) == exits[j] >= 1 \/ Excused(j)
+\* a job that has been seen entering the worker function was not cancelled: only its exit settles it
+SettledStrict(j) == exits[j] >= 1 \/ (enters[j] = 0 /\ Excused(j))
 
 ControlOps == {"Pause", "PauseAndWait", "Resume", "Stop", "WaitAndStop", "Restart", "CancelCtx", "Bind"}
 BarrierOps == {"WUF", "PauseAndWait", "Stop", "WaitAndStop", "Restart"}
@@ -349,8 +351,8 @@ C04_SerialOrder == E.ev = "enter" /\ E.job \in Jobs /\ concMax = 1 =>
                      => enters[a] >= 1
 
 ---- \* C05 handles
-C05_NotEarly == E.ev = "ret" /\ E.op \in {"Wait", "Result"} /\ E.res # "nohandle" /\ E.job \in Jobs => Settled(E.job)
-C05_BatchNotEarly == E.ev = "ret" /\ E.op \in {"BatchWait", "BatchRead"} /\ E.res # "nohandle" => \A j \in ItemsOf(E.b) : Settled(j)
+C05_NotEarly == E.ev = "ret" /\ E.op \in {"Wait", "Result"} /\ E.res # "nohandle" /\ E.job \in Jobs => SettledStrict(E.job)
+C05_BatchNotEarly == E.ev = "ret" /\ E.op \in {"BatchWait", "BatchRead"} /\ E.res # "nohandle" => \A j \in ItemsOf(E.b) : SettledStrict(j)
 \* at rest nobody sleeps on a handle whose work is done
 HandleDone(pc) == CASE pc.op \in {"Wait", "Result", "Drain"} -> pc.job \in Jobs /\ (exits[pc.job] >= 1 \/ closeNil[pc.job])
                     [] pc.op \in {"BatchWait", "BatchRead"} -> \A j \in ItemsOf(pc.b) : exits[j] >= 1 \/ closeNil[j] \/ sub[j] = "rej"
@@ -358,7 +360,7 @@ HandleDone(pc) == CASE pc.op \in {"Wait", "Result", "Drain"} -> pc.job \in Jobs 
 C05_Returns == Quiescent => \A c \in Clients : pend[c].op # "none" /\ (\E i \in DOMAIN E.blocked : E.blocked[i] = c) => ~HandleDone(pend[c])
 
 ---- \* C06 barriers
-C06_WUF == IsRet("WUF") /\ R.clean => \A j \in R.snap : Settled(j)
+C06_WUF == IsRet("WUF") /\ R.clean => \A j \in R.snap : SettledStrict(j)
 C06_Drained == E.ev = "ret" /\ E.op \in {"PauseAndWait", "Stop", "WaitAndStop"} /\ E.res = "nil" /\ R.solo =>
                   IF Gated THEN Inflight = {} ELSE R.entered \cap Inflight = {}
 \* at rest no barrier caller sleeps although nothing is in flight (and, on a running worker, nothing is pending)
